@@ -2,6 +2,7 @@ import Lean.Data.Json
 import QV.Drive.C09
 import QV.Drive.Comp
 import QV.Drive.C11
+import QV.Drive.C04
 /-! `qvdriver`: one JSON request per input line, one JSON reply per output line. -/
 open Lean
 
@@ -10,7 +11,8 @@ def dispatch (j : Json) : Except String Json := do
   let handlers : List (String → Json → Option (Except String Json)) := [
     QV.Drive.C09.handle,
     QV.Drive.Comp.handle,
-    QV.Drive.C11.handle
+    QV.Drive.C11.handle,
+    QV.Drive.C04.handle
   ]
   for h in handlers do
     if let some r := h op j then return ← r
